@@ -8,9 +8,9 @@ from worlds import master
 ID = "C11"
 LEVEL = "exploration"
 DESIGN_REF = "DESIGN.md §4 C11, Appendix C"
-QUICK_RUNS = 4800
+QUICK_RUNS = 16000
 THOROUGH_MIN_RUNS = 30000
-BATCH = 50
+BATCH = 100
 CASE_WALL_S = 60.0
 RULE = ("two case families.  master (W4): the real Arbiter.run() with 1-3 scripted stub workers whose heartbeat patterns are "
         "drawn per worker: regular with gaps just under `timeout` (boundary), "
